@@ -203,7 +203,12 @@ def run(ctx):
             fixed = {i: rng.randint(-9, 9) for i in idx}
             rest_pt = [rng.randint(-20, 20) for _ in range(n - nfix)]
             before = pipes.to_ints(w(*pt))
-            exp = expected_of(lambda: w.fix_inputs(dict(fixed)))
+            # the dict is passed with its keys in arbitrary insertion order, some of them given by input name instead of index
+            order = list(idx)
+            rng.shuffle(order)
+            names_in = list(w.forward_transform.inputs)
+            passed = {(names_in[i] if rng.random() < 0.3 else i): fixed[i] for i in order}
+            exp = expected_of(lambda: w.fix_inputs(dict(passed)))
             ints = None
             if exp[0] == "val":
                 try:
@@ -218,10 +223,10 @@ def run(ctx):
                 full.insert(i, fixed[i])
             want = pipes.to_ints(w(*full))
             if exp[0] == "val" and ints != want:
-                oracle_bad.append((f"fix_inputs({fixed}) at {rest_pt} gives {ints}, original at {full} gives {want}",
-                                   dict(n=n, fixed=fixed, point=rest_pt)))
+                oracle_bad.append((f"fix_inputs({passed}) at {rest_pt} gives {ints}, original at {full} gives {want}",
+                                   dict(n=n, fixed={str(k2): v for k2, v in passed.items()}, point=rest_pt)))
             if exp[0] == "err":
-                oracle_bad.append((f"fix_inputs({fixed}) raised {exp[1]}", dict(n=n, fixed=fixed)))
+                oracle_bad.append((f"fix_inputs({passed}) raised {exp[1]}", dict(n=n, fixed={str(k2): v for k2, v in passed.items()})))
             fx = glist([f"({gz(i)}, {gz(fixed[i])})" for i in idx])
             call = f"(do w' <- fix_inputs_model w {fx}; m_forward_transform w')"
             ctx.case(key=(cw, call, tuple(rest_pt)), nontrivial=(exp[0] == "val"), kind="fix_inputs/" + exp[0],
